@@ -9,7 +9,7 @@ import (
 	"gengoverif/checker/internal/core"
 )
 
-// c10R14: three structural conditions of "evaluates to a deeply equal value, compiled with the imports it registered"
+// c10R14 (files R14 and R15): three structural conditions of "evaluates to a deeply equal value, compiled with the imports it registered"
 // that concern WHAT the value printer renders rather than how a scalar is spelled:
 //
 //	(a) the struct arm renders the struct's own fields: field values and names come from Field(i) of the value and of the
@@ -19,8 +19,9 @@ import (
 //	(c) what is written was rendered by the printer's own namer: a literal produced by another Dumper (the registering-
 //	    nothing one that gives map keys their order) is used for comparison only and reaches neither a buffer nor a result.
 func c10R14(p *core.Program, r *core.Report, f *core.Func, armOf map[string]*ast.CaseClause) {
-	const rule = "R14"
-	r.Floor(rule, 3)
+	rule := "R15" // (a) and (b); (c) is R14, which C03 chains
+	r.Floor("R14", 1)
+	r.Floor("R15", 2)
 	info := f.Info()
 
 	// (a)
@@ -84,6 +85,7 @@ func c10R14(p *core.Program, r *core.Report, f *core.Func, armOf map[string]*ast
 	}
 
 	// (c)
+	rule = "R14"
 	recv := recvVar(f)
 	isForeign := func(e ast.Expr) bool {
 		c, ok := ast.Unparen(e).(*ast.CallExpr)
